@@ -7,6 +7,9 @@
   `SimC`-related: `exists` (strictly), `metadata`, `read_dir` (as sets), `readAll`, `create_dir`,
   `remove_file`, `remove_dir` (with their whiteout bookkeeping), `create_file` alone and the
   closed write session.
+  `create_dir` (after the fix of O11) inspects the answer of the write layer and clears the
+  whiteout with the tolerant `clear_whiteout`: `DirectoryExists` matches exactly under `KRel`, so
+  both sides take the same branch; the tolerant clearing is the field `clearT` of `SimW`.
   NOT PROVED: `append_file` of an overlay (its copy-up is a `copy_file`, see Proofs/ClassSim.lean);
   an overlay is therefore `SimC` but not `SimW`, i.e. it is not shown usable as the WRITE layer of
   another overlay (as a lower layer it is).
@@ -178,6 +181,19 @@ theorem sim_clearWhiteout (p : Str) :
   refine CSim.bind_eq (VPath.sim_exists hwo.toC).ofEq fun ex => ?_
   exact CSim.ite (fun _ => VPath.sim_removeFile hwo.toC) (fun _ => CSim.pure rfl)
 
+omit hL hW in
+theorem clearWhiteoutT_eq (l : List VPath) (p : Str) :
+    clearWhiteoutT l p = (M.ret (whiteoutPath l p) >>= fun wo => VPath.clearVT wo) := rfl
+
+/-- `clear_whiteout` of `create_dir` (fix of O11): the probe and the tolerant removal are one
+field (`clearT`) of the write layer's interface -/
+theorem sim_clearWhiteoutT (p : Str) :
+    CSim R KRel (· = ·) (clearWhiteoutT l1 p) (clearWhiteoutT l2 p) := by
+  rw [clearWhiteoutT_eq, clearWhiteoutT_eq]
+  refine CSim.bind (CSim.ret ((sim_whiteoutPath hL hW p).monoK fun a b e => by cases e; exact Or.inl rfl))
+    fun wo1 wo2 hwo => ?_
+  exact VPath.sim_clearVT hwo
+
 theorem sim_addWhiteout (p : Str) :
     CSim R KRel (· = ·) (addWhiteout l1 p) (addWhiteout l2 p) := by
   unfold addWhiteout
@@ -237,8 +253,31 @@ theorem sim_createDir (p : Str) (hp : Canon p) (hpn : p ≠ []) :
     exact CSim.failK _
   · refine CSim.bind (CSim.ret ((sim_writePath_nonroot hL hW p hp hpn).monoK
       fun a b e => by cases e; exact Or.inl rfl)) fun wp1 wp2 hwp => ?_
-    refine CSim.bind_eq (VPath.sim_createDir hwp.1.toC hwp.2) fun _ => ?_
-    exact sim_clearWhiteout hL hW p
+    -- related answers of the write layers select the same branch (`DirectoryExists` matches
+    -- exactly under `KRel`)
+    intro w1 w2 hr
+    dsimp only
+    rcases e1 : wp1.createDir w1 with ⟨r1, w1'⟩
+    rcases e2 : wp2.createDir w2 with ⟨r2, w2'⟩
+    obtain ⟨hres, hr'⟩ := (VPath.sim_createDir hwp.1.toC hwp.2).run hr e1 e2
+    cases hres with
+    | @ok a b hq => cases a; cases b; exact sim_clearWhiteoutT hL hW p w1' w2' hr'
+    | panic => exact ⟨.panic, hr'⟩
+    | @err k1 k2 p1 p2 hk =>
+      have hiff := (KRel.exact hk).2.1
+      by_cases hd : k1 = .dirExists
+      · have hd2 := hiff.1 hd
+        subst hd hd2
+        dsimp only
+        rcases e3 : clearWhiteoutT l1 p w1' with ⟨r3, w1''⟩
+        rcases e4 : clearWhiteoutT l2 p w2' with ⟨r4, w2''⟩
+        obtain ⟨hres2, hr''⟩ := (sim_clearWhiteoutT hL hW p).run hr' e3 e4
+        cases hres2 with
+        | @ok a b hq => cases a; cases b; exact ⟨.err hk, hr''⟩
+        | panic => exact ⟨.panic, hr''⟩
+        | @err k3 k4 p3 p4 hk2 => exact ⟨.err hk2, hr''⟩
+      · have hd2 : k2 ≠ .dirExists := fun h => hd (hiff.2 h)
+        cases k1 <;> cases k2 <;> first | exact absurd rfl hd | exact absurd rfl hd2 | exact ⟨.err hk, hr'⟩
 
 theorem sim_refuseDir (p : Str) : CSim R KRel (· = ·) (refuseDir l1 p) (refuseDir l2 p) := by
   unfold refuseDir
